@@ -275,6 +275,12 @@ static Tok *new_tok(const J &st, const char *api) {
   return t;
 }
 
+static std::string lowered_nodot(std::string n) {
+  for (auto &c : n) c = (char)tolower((unsigned char)c);
+  if (!n.empty() && n.back() == '.') n.pop_back();
+  return n;
+}
+
 static const Frame *find_frame(const J &st) {
   std::string tx = st["tx"].str("last");
   if (g_frames.empty()) return nullptr;
@@ -421,8 +427,8 @@ void exec_step(const J &st, int incb) {
     std::string service = st["service"].str("");
     int dots = 0;
     for (char c : name) if (c == '.') dots++;
-    ev("{\"e\":\"call\",\"api\":\"gai\",\"t\":%d,\"lit\":%d,\"dots\":%d,\"enddot\":%d,\"wname\":%s,\"name\":%s,\"family\":%d,\"flags\":%d,\"service\":%s,\"port\":%d,\"now\":%lld,\"depth\":%d,\"incb\":%d}",
-       tok->id, litcode, dots, (!name.empty() && name.back() == '.') ? 1 : 0, jstr((!name.empty() && name.back() == '.') ? name.substr(0, name.size() - 1) : name).c_str(), jstr(name).c_str(), fam, hints.ai_flags, jstr(service).c_str(), atoi(service.c_str()), g_now_ms, g_depth, incb);
+    ev("{\"e\":\"call\",\"api\":\"gai\",\"t\":%d,\"lit\":%d,\"dots\":%d,\"enddot\":%d,\"kname\":%s,\"wname\":%s,\"name\":%s,\"family\":%d,\"flags\":%d,\"service\":%s,\"port\":%d,\"now\":%lld,\"depth\":%d,\"incb\":%d}",
+       tok->id, litcode, dots, (!name.empty() && name.back() == '.') ? 1 : 0, jstr(lowered_nodot(name)).c_str(), jstr((!name.empty() && name.back() == '.') ? name.substr(0, name.size() - 1) : name).c_str(), jstr(name).c_str(), fam, hints.ai_flags, jstr(service).c_str(), atoi(service.c_str()), g_now_ms, g_depth, incb);
     g_depth++;
     ares_getaddrinfo(g_channel, name.c_str(), service.empty() ? nullptr : service.c_str(), &hints, addrinfo_cb, tok);
     g_depth--;
@@ -432,8 +438,8 @@ void exec_step(const J &st, int incb) {
     int  fam = (int)st["family"].num(4);
     int dots = 0;
     for (char c : name) if (c == '.') dots++;
-    ev("{\"e\":\"call\",\"api\":\"ghbn\",\"t\":%d,\"dots\":%d,\"enddot\":%d,\"wname\":%s,\"name\":%s,\"family\":%d,\"now\":%lld,\"depth\":%d,\"incb\":%d}", tok->id,
-       dots, (!name.empty() && name.back() == '.') ? 1 : 0, jstr((!name.empty() && name.back() == '.') ? name.substr(0, name.size() - 1) : name).c_str(), jstr(name).c_str(), fam, g_now_ms, g_depth, incb);
+    ev("{\"e\":\"call\",\"api\":\"ghbn\",\"t\":%d,\"dots\":%d,\"enddot\":%d,\"kname\":%s,\"wname\":%s,\"name\":%s,\"family\":%d,\"now\":%lld,\"depth\":%d,\"incb\":%d}", tok->id,
+       dots, (!name.empty() && name.back() == '.') ? 1 : 0, jstr(lowered_nodot(name)).c_str(), jstr((!name.empty() && name.back() == '.') ? name.substr(0, name.size() - 1) : name).c_str(), jstr(name).c_str(), fam, g_now_ms, g_depth, incb);
     g_depth++;
     ares_gethostbyname(g_channel, name.c_str(), fam == 4 ? AF_INET : (fam == 6 ? AF_INET6 : AF_UNSPEC), host_cb, tok);
     g_depth--;
@@ -694,6 +700,19 @@ void run_history(const J &hist) {
   }
   opts.resolvconf_path = (char *)resolv.c_str(); optmask |= ARES_OPT_RESOLVCONF;
   std::string hosts = g_cfg["hosts"].str("/dev/null");
+  std::string aliases_tmp;
+  if (g_cfg["hostaliases"].num()) {  // fixed HOSTALIASES database (mirrored by AliasDb in Search.tla)
+    const char *td = getenv("VERIF_TMP");
+    aliases_tmp = std::string(td ? td : "/tmp") + "/sim_aliases." + std::to_string((long)getpid());
+    FILE *af = fopen(aliases_tmp.c_str(), "w");
+    if (af) {
+      fputs("other   x.y.test\nn1      n1alias.target.test\nN2 n2up.target.test\nbad\n", af);
+      fclose(af);
+    }
+    setenv("HOSTALIASES", aliases_tmp.c_str(), 1);
+  } else {
+    unsetenv("HOSTALIASES");
+  }
   if (g_cfg["hostsfile"].num()) {  // fixed hosts database (mirrored by HostsDb in Lookup.tla)
     const char *td = getenv("VERIF_TMP");
     hosts = std::string(td ? td : "/tmp") + "/sim_hosts." + std::to_string((long)getpid());
@@ -739,12 +758,12 @@ void run_history(const J &hist) {
   for (auto &d : domstore) domj += (domj.empty() ? "" : ",") + jstr(d);
   ev("{\"e\":\"init\",\"nsrv\":%d,\"tries\":%d,\"timeout\":%d,\"maxtimeout\":%lld,\"rotate\":%lld,\"udpmax\":%lld,\"usevc\":%lld,\"igntc\":%lld,"
      "\"nocheckresp\":%lld,\"edns\":%lld,\"dns0x20\":%lld,\"stayopen\":%lld,\"nosearch\":%lld,\"noaliases\":%lld,\"qcache\":%lld,\"ndots\":%d,"
-     "\"domains\":[%s],\"lookups\":%s,\"retrychance\":%lld,\"retrydelay\":%lld,\"pendwrite\":%lld,\"tfo\":%lld,\"hintmax\":%lld,\"hostsfile\":%lld,\"usefile\":%d}",
+     "\"domains\":[%s],\"lookups\":%s,\"retrychance\":%lld,\"retrydelay\":%lld,\"pendwrite\":%lld,\"tfo\":%lld,\"hintmax\":%lld,\"hostsfile\":%lld,\"usefile\":%d,\"hostaliases\":%lld}",
      g_nservers, opts.tries, opts.timeout, g_cfg["maxtimeout"].num(0), g_cfg["rotate"].num(0), g_cfg["udpmax"].num(0), g_cfg["usevc"].num(0),
      g_cfg["igntc"].num(0), g_cfg["nocheckresp"].num(0), g_cfg["edns"].num(0), g_cfg["dns0x20"].num(0), g_cfg["stayopen"].num(0),
      g_cfg["nosearch"].num(0), g_cfg["noaliases"].num(1), g_cfg["qcache"].num(0), opts.ndots, domj.c_str(), jstr(lookups).c_str(),
      g_cfg["retrychance"].num(10), g_cfg["retrydelay"].num(5000), g_cfg["pendwrite"].num(0), g_cfg["tfo"].num(0), g_cfg["hintmax"].num(0), g_cfg["hostsfile"].num(0),
-     lookups.find('f') != std::string::npos ? 1 : 0);
+     lookups.find('f') != std::string::npos ? 1 : 0, g_cfg["hostaliases"].num(0));
 
   for (auto &st : hist["steps"].a) exec_step(st, 0);
   if (g_channel != nullptr) {
@@ -756,6 +775,7 @@ void run_history(const J &hist) {
   }
   ares_library_cleanup();
   if (!hosts_tmp.empty()) unlink(hosts_tmp.c_str());
+  if (!aliases_tmp.empty()) { unlink(aliases_tmp.c_str()); unsetenv("HOSTALIASES"); }
   ares_verif_now_cb  = nullptr;
   ares_verif_rand_cb = nullptr;
   std::string pend;
